@@ -52,7 +52,12 @@ fn toks(s: &[f64; 7]) -> Value {
 }
 
 fn obs(sk: &CpcSketch) -> Value {
-    json!({"b": ranks(&seven(sk)), "emp": sk.is_empty(), "c": sk.num_coupons()})
+    let s = seven(sk);
+    // relative error advertised by the one-sigma bounds (10^-6 units); meaningful once the lower bound is
+    // not clamped to the coupon count and the ceiling of the upper bound is negligible
+    let k = (1u64 << sk.lg_k()) as f64;
+    let big = s[3] >= 20.0 * k && s[2] > sk.num_coupons() as f64;
+    json!({"b": ranks(&s), "emp": sk.is_empty(), "c": sk.num_coupons(), "rel": crate::fam_hll::rel6(&s), "big": big})
 }
 
 fn full_fields(sk: &CpcSketch) -> Value {
@@ -455,11 +460,12 @@ pub fn record(args: &Args) {
                     let id = s.new_sketch(lgk);
                     crafted_walk(&mut s, &mut rng, id, lgk, if lgk == 7 { 40 } else { 24 });
                 }
-                for &lgk in &[10u8, 12] {
+                let larger: &[u8] = if thorough && rep == 0 { &[10, 12, 13, 14] } else { &[10, 12] };
+                for &lgk in larger {
                     let k = 1usize << lgk;
                     let mut s = Sess::new(&mut out, "cpc-public-stream");
                     let id = s.new_sketch(lgk);
-                    stream_public(&mut s, &mut rng, id, lgk, if lgk == 10 { 5 * k } else { k }, 1500);
+                    stream_public(&mut s, &mut rng, id, lgk, if lgk == 10 { 5 * k } else if lgk == 12 { k } else { 3 * k }, 1500);
                     let r = s.rt(id);
                     s.chk(r);
                 }
